@@ -220,6 +220,44 @@ CHECKS = {
        "borrowed-by-run_until_complete). Partial: completion is proved only for a target that keeps running.",
   tech="Lean 4 proof (inductive invariant over an LTS, all interleavings; decide counter-example) + trace "
        "refinement check under a deterministic scheduler + hang detector", ref="§5 C17"),
+ "C01": dict(
+  text="Lean theorems about the cache LTS (Cache/Model.lean: any number of callers, keys, loops and threads; every "
+       "interleaving at shared-access granularity; loop life-cycle fresh/running/stopped/shutting/closed with "
+       "orphaned invocations, take-over of a dead marker, own-marker-only deletion; evictions; cancellations): "
+       "C01_single_flight (no two live invocations per key, EVERY accepted label sequence), C01_one_owner, "
+       "C01_takeover_only_from_dead, C01_cached_is_returned, from a 23-clause inductive invariant (inv_init, "
+       "inv_step). Tie: 2..4 real loop threads under the baton scheduler with hook-free instrumentation of the cache "
+       "mapping, the in-flight table (closure cell), the lock class, loop-state reads and Event.set; the observation "
+       "trace of every execution is replayed on the LTS (program counter and observed values must agree); monitor: "
+       "overlap of live invocations, recomputation after a retained success",
+  note=NOTE_COMMON + "Holds only after fix 90a667a (F2). The clause 'every later caller receives that one result' is "
+       "covered by C06_outcome + the monitor; uniqueness of the result under a retaining mapping is not a separate "
+       "theorem.",
+  tech="Lean 4 proof (inductive invariant over a labelled transition system with loop life-cycle, all "
+       "interleavings) + observation-trace refinement under a deterministic scheduler", ref="§5 C01"),
+ "C05": dict(
+  text="Lean theorems about the same LTS: C05_no_lost_wakeup (a caller waiting on an unset event: the event's "
+       "creator is still before its event.set() with that very event), C05_lock_holder_enabled (the lock is never "
+       "held across an await: its holder can always step), C05_waiter_wakeable, C05_publisher_enabled, "
+       "C05_waits_on_owners_event. Tie as C01, plus virtual-time monitors: every caller finishes (deadlock / "
+       "step-budget detector), a waiter whose loops stay alive finishes at the instant the computation ends (not 60 s "
+       "later), waiters of a loop that died recover within the 60 s safety window",
+  note=NOTE_COMMON + "Partial: termination under fair scheduling is argued from these lemmas on paper; promptness "
+       "and the 60 s recovery bound are measured in virtual time, not proved (the model over-approximates the "
+       "waiting path).",
+  tech="Lean 4 proof (wake-up and enabledness invariants of the LTS) + virtual-time promptness / hang monitors on "
+       "scheduler-controlled executions", ref="§5 C05"),
+ "C06": dict(
+  text="Lean theorems about the same LTS with outcome provenance ghosts: C06_outcome (a finished call returned a "
+       "value produced by a successful invocation for its key, or raised an exception of an invocation it performed "
+       "itself, or was cancelled with its own task - nothing else exists), C06_failure_not_cached, "
+       "C06_cancel_isolated (cancelling a waiter touches only that caller), C06_marker_removal_never_fails. Tie as "
+       "C01, with failing invocations, client cancellations and shutdown of loops hosting computations or proxy "
+       "waits; monitor: type and origin of every outcome, no bookkeeping exception, no foreign cancellation",
+  note=NOTE_COMMON + "Holds only after fixes 90a667a (F2) and 9d605d2 (F4). The model abstracts the waiting path, so "
+       "the foreign-cancellation clause (F4) is guarded by the monitor, not by a theorem.",
+  tech="Lean 4 proof (provenance invariant of the LTS) + observation-trace refinement + outcome-origin monitor",
+  ref="§5 C06"),
 }
 
 def main():
